@@ -39,6 +39,13 @@ bustoken() {
   [ -s bin/c09_bustoken.json ] || { echo "HARNESS-ERROR: bus-token test produced no result"; tail -5 bin/bustoken.log; exit 3; }
 }
 
+# tier B: test binary compiled with go1.26.8 (testing/synctest bubbles)
+build_b() {
+  cp /repo/go.sum h/go.sum 2>/dev/null
+  (cd h && go1.26.8 test -c -vet=off -o ../bin/verifb.test ./tb) || { echo "HARNESS-ERROR: tier-B build failed (does /repo still compile?)"; exit 3; }
+}
+run_b() { VERIF_TIER="$tier" exec bin/verifb.test -test.run "^Test$1\$" -test.timeout 0; }
+
 case "${1:-}" in
   setup)
     build_s
@@ -48,6 +55,8 @@ case "${1:-}" in
     tier=quick
     case "$prop" in
       C14) VERIF_REPLAY="$(realpath "$2")" overlay_test c14 client TestVerifC14;;
+      C02|C07|C08|C13|C20) build_b
+         VERIF_EXEC_ONE="$(jq -r .violation.part "$2")|$(jq -c .violation.choices "$2")" exec bin/verifb.test -test.run "^Test$prop\$" -test.timeout 0;;
       C04) build_s; (cd h && go build -o ../bin/c04writer ./cmd/c04writer) || exit 3; exec bin/verifs replay "$2";;
       *) build_s; exec bin/verifs replay "$2";;
     esac;;
@@ -57,6 +66,9 @@ id="$1"; tier="${2:-quick}"
 case "$id" in
   C14)
     overlay_test c14 client TestVerifC14;;
+  C02|C07|C08|C13|C20)
+    build_b
+    run_b "$id";;
   C04)
     build_s
     (cd h && go build -o ../bin/c04writer ./cmd/c04writer) || { echo "HARNESS-ERROR: c04writer build failed"; exit 3; }
